@@ -31,11 +31,19 @@ def loop_rows(s, kinds=("store", "assign")):
     return rows
 
 
+from .util import resolve_deep
+
+
 def atoms_of(rows):
     atoms = []
-    for _, _, _, gg, _ in rows:
+    for _, _, val, gg, _ in rows:
         for c, _ in gg:
             bool_atoms(c, atoms)
+        # conditions of conditional expressions inside the stored value are part of the decision too
+        if isinstance(val, tuple):
+            for x in subterms(val):
+                if x[0] == "ifexp":
+                    bool_atoms(x[1], atoms)
     return atoms
 
 
@@ -123,7 +131,7 @@ def fn_merge_table(ctx, rule="TABLE-Fn.merge"):
             if f is None:
                 raise AnalysisError(f"{construct}: guard not decidable")
             if f and base is not None:
-                got.setdefault(base, []).append(val)
+                got.setdefault(base, []).append(resolve_deep(val, asg) if isinstance(val, tuple) else val)
         # map actual container names to roles by the returned tuple
         ret = items(s.ret)
         ncase += 1
